@@ -45,6 +45,9 @@ var sortSpecs = [][]gen.SortCol{
 	{{Path: []string{"k2"}, NullsFirst: true}, {Path: []string{"k"}, Desc: true}},
 	{{Path: []string{"f"}}},
 	{{Path: []string{"pay"}, Desc: true}, {Path: []string{"k"}}},
+	// two required columns: equal first-column keys across inputs are ordered by the second
+	{{Path: []string{"k"}}, {Path: []string{"pay"}}},
+	{{Path: []string{"k"}, Desc: true}, {Path: []string{"sum"}}},
 	// a required sorting column that comes after the repeated column in the schema
 	{{Path: []string{"sum"}}},
 	{{Path: []string{"k2"}, NullsFirst: true}, {Path: []string{"sum"}, Desc: true}},
@@ -67,7 +70,9 @@ func keyedSum(k gen.Keyed) uint64 {
 func makeKeyed(r *tape.Rng, key int64, src int32) gen.Keyed {
 	k := gen.Keyed{K: key, Src: src, F: float64(key%17) / 2}
 	if key%5 != 0 {
-		s := fmt.Sprintf("s%02d", ((key%23)+23)%23)
+		// depends on the input too, so rows with equal first-column keys from
+		// different inputs differ in the second sorting column
+		s := fmt.Sprintf("s%02d", ((key%23)+23+int64(src)*5)%23)
 		k.K2 = &s
 	}
 	k.Pay = gen.String(r, 1)
@@ -87,6 +92,7 @@ var keyPatterns = []string{"disjoint", "touching", "nested", "identical", "runs"
 // genKeys returns n keys for input i of k inputs according to a pattern.
 func genKeys(r *tape.Rng, pattern string, i, k, n int) []int64 {
 	keys := make([]int64, n)
+	jitter := 0
 	for j := range keys {
 		switch pattern {
 		case "disjoint":
@@ -113,7 +119,10 @@ func genKeys(r *tape.Rng, pattern string, i, k, n int) []int64 {
 			// refinement), many pages starting exactly at a key boundary
 			dup := 1 + (n/500)%3*2
 			width := n / dup
-			keys[j] = int64(i*width*4/5 + j/dup)
+			if j == 0 {
+				jitter = r.Intn(width/8 + 1) // where the overlap starts relative to the other input's pages varies with the seed
+			}
+			keys[j] = int64(i*width*4/5 + jitter + j/dup)
 		case "dups":
 			keys[j] = int64(r.Intn(12))
 		default:
